@@ -325,6 +325,29 @@ class CreditLedger(Monitor):
                 "bidi": o.get("max_streams_bidi_" + peer, 128),
                 "uni": o.get("max_streams_uni_" + peer, 128),
             }
+        # 0-RTT: until the server's transport parameters for *this* connection can have reached the
+        # client (first Handshake or 1-RTT packet delivered to it), the limits in force for the client
+        # are the ones it remembers from the connection that issued the session ticket.
+        self.remembered_until = None
+        self.zero_rtt_stream_frames = 0
+        if o.get("resume") is not None and getattr(sim, "resumed_with_ticket", False):
+            po = dict(o)
+            po.update(o["resume"])
+            self.fresh_client_limits = self.lim["client"]
+            self.lim["client"] = {
+                "max_data": po.get("max_data_server", 1048576),
+                "stream_default": po.get("max_stream_data_server", 1048576),
+                "stream": {},
+                "bidi": po.get("max_streams_bidi_server", 128),
+                "uni": po.get("max_streams_uni_server", 128),
+            }
+            self.remembered_until = "pending"
+
+    def _promote(self, t):
+        new, old = self.fresh_client_limits, self.lim["client"]
+        for k in ("max_data", "stream_default", "bidi", "uni"):
+            old[k] = max(old[k], new[k])
+        self.remembered_until = t
 
     def stream_limit(self, s, sid):
         L = self.lim[s]
@@ -332,6 +355,10 @@ class CreditLedger(Monitor):
 
     def on_deliver(self, ep, rec, from_addr, t, altered=False):
         L = self.lim[ep.name]
+        if self.remembered_until == "pending" and ep.name == "client":
+            # permissive: any server packet above the Initial level (even one the tap cannot read)
+            if rec.views is None or any(v.ptype in ("handshake", "1rtt", "unknown") for v in rec.views):
+                self._promote(t)
         for v in self.sim.views_possibly_intact(rec, altered):
             if v.error:
                 continue
@@ -366,6 +393,8 @@ class CreditLedger(Monitor):
                 end = f["offset"] + f["length"] if n == "STREAM" else f["final_size"]
                 if n == "STREAM":
                     self.stream_frames += 1
+                    if v.ptype == "0rtt":
+                        self.zero_rtt_stream_frames += 1
                     if end <= hi.get(sid, 0) and f["length"]:
                         self.retransmitted_bytes += f["length"]
                 limit = self.stream_limit(s, sid)
